@@ -138,6 +138,23 @@ def run(ctx):
             recs[oid] = rec
             obs.append(observe(rec, oid))
     ctx.extra['table_debugids'] = 4 * len(ids)
+    # TEXT-LIKE fields: records that carry a chunk of a string (paths, thread names, format strings) fill their argument
+    # bytes - or any field - with bytes of one small class: blanks, ASCII white space, digits, letters, NUL / blank mixes,
+    # one repeated byte.  (str / bytes helpers - strip, isdigit, isspace, split, int() - treat exactly these specially.)
+    ALPHABETS = [b' ', b' \t\n\r\x0b\x0c', b'\n', b'\t ', b'0', b'0123456789', b'abcxyz', b'\x00 ', b'\x00\n', b'%s %d\n', b'\xff ', b'/', b'. ',
+                 b'\x1c\x1d\x1e\x1f', b'\x85\xa0', b'_-']
+    SPANS = [(8, 40), (8, 16), (16, 24), (24, 32), (32, 40), (0, 8), (40, 48), (48, 52), (52, 64), (0, 64), (8, 39), (9, 40), (0, 40), (8, 64)]
+    ntext = 0
+    for ai, alpha in enumerate(ALPHABETS):
+        for (a_, b_) in SPANS:
+            for rest in range(3 if ctx.quick else 8):
+                rec = bytearray(64) if rest == 0 else bytearray([255] * 64) if rest == 1 else bytearray(rnd.getrandbits(8) for _ in range(64))
+                rec[a_:b_] = bytes(rnd.choice(alpha) for _ in range(b_ - a_))
+                oid = 'txt%d' % ntext
+                ntext += 1
+                recs[oid] = bytes(rec)
+                obs.append(observe(bytes(rec), oid, how=ntext % 3))
+    ctx.extra['text_like_field_fills'] = ntext
     # equal values in two fields: field B (any of the 9 fields, output or not) carries a part of field A
     FIELDS = [('ts', 0, 8), ('a0', 8, 8), ('a1', 16, 8), ('a2', 24, 8), ('a3', 32, 8), ('tid', 40, 8), ('dbg', 48, 4),
               ('cpu', 52, 4), ('unused', 56, 8)]
